@@ -6,7 +6,7 @@ import numpy
 
 from . import ir
 from .ir import TranslationError
-from .symeval import Ev, Obj, Sources, T
+from .symeval import Ev, Obj, Size, Sources, T
 
 HEADER = """(* GENERATED on every run by tools/py2v from the working tree of the repository under test. Do not edit. *)
 From Coq Require Import Reals Arith.
@@ -60,6 +60,8 @@ def _mk(v):
   if isinstance(v, tuple) and v and v[0] == "stub":
     outs = v[1]
     return lambda ev, n: _mk(outs) if not isinstance(outs, list) else tuple(_mk(o) for o in outs)
+  if isinstance(v, tuple) and len(v) == 2 and v[0] == "size":
+    return Size(v[1])
   if isinstance(v, tuple) and v and v[0] == "obj":
     return Obj({k: _mk(x) for k, x in v[1].items()}, v[2] if len(v) > 2 else None)
   if isinstance(v, tuple) and len(v) == 2 and isinstance(v[1], list):
@@ -81,6 +83,21 @@ def translate(src, u):
   env["__empty__"] = u.empty
   for k, v in u.stubs.items():
     env[k] = _mk(v)
+  # parameters of the unit's own function that the unit does not declare take their default: a literal, or a module-level constant
+  # (so that flipping e.g. INCLUDE_NONZERO_MEAN_GRADIENT_CORRECTION changes the path the translator walks)
+  import ast as _ast
+  args = fn.args.args
+  for p_, d_ in zip(args[len(args) - len(fn.args.defaults):], fn.args.defaults):
+    if p_.arg in env:
+      continue
+    if isinstance(d_, _ast.Constant):
+      env[p_.arg] = d_.value
+    elif isinstance(d_, _ast.Name):
+      found = [n_ for n_ in src.mods[rel].body if isinstance(n_, _ast.Assign) and len(n_.targets) == 1
+               and isinstance(n_.targets[0], _ast.Name) and n_.targets[0].id == d_.id and isinstance(n_.value, _ast.Constant)]
+      if len(found) != 1:
+        raise TranslationError(f"{u.name}: default `{d_.id}` of parameter {p_.arg} is not a unique module-level literal")
+      env[p_.arg] = found[0].value.value
   ev = Ev(src, rel, env, u.sizes, u.cls)
   out = ev.run(fn)
   if isinstance(out, Obj):
